@@ -6,8 +6,8 @@ and the node's process survived it (the harness attributes a dead worker process
 input and reports `CRASH <function>` there).  `alive => serving`: Members/Stats/State still answer
 and a fresh user event is still delivered.
 
-Model output: for `inj msg`/`inj merge*` the control skeleton `SerfModel.Handlers.handle` is run on
-the input's bytes with a decoder that rejects everything (the type-byte dispatch and the length
+Model output: for `inj msg`/`inj merge*`/`inj ping`/member metadata/`inj respopen` the control skeleton
+`SerfModel.Handlers.handle` is run on the input's bytes with a decoder that rejects everything (the type-byte dispatch and the length
 guards are exercised; `Props/C09.lean` proves the outcome is never `.panic` for ANY decoder); the
 prediction is `ok` unless the skeleton reaches a `.panic` site.  The monitor judges the
 implementation's own output: anything but `ok`/`serving` fails, keyed by the crashing function.
@@ -49,6 +49,20 @@ def predict (s : St) (op : List String) : String :=
       | some b => skeletonOutcome (.merge (b.map (·.toNat)))
       | none => "bad-op"
     else "ok"
+  | ["inj", "ping", _rtt, _name, h] =>
+    match bytesOfHex? h with
+    | some b => skeletonOutcome (.ping (b.map (·.toNat)))
+    | none => "bad-op"
+  | ["inj", "respopen", _flags, _from, h] =>
+    match bytesOfHex? h with
+    | some b =>
+      let p := b.map (·.toNat)
+      if skeletonOutcome (.conflictReply p) == "ok" then skeletonOutcome (.keyReply p) else skeletonOutcome (.conflictReply p)
+    | none => "bad-op"
+  | ["inj", _kind, _name, _addr, metaHex, _port, _state] =>
+    match bytesOfHex? metaHex with
+    | some b => skeletonOutcome (.metadata (b.map (·.toNat)))
+    | none => "bad-op"
   | "inj" :: _ => "ok"
   | ["alive"] => "serving"
   | _ => "bad-op"
